@@ -46,6 +46,14 @@ let apply_op (o : nat obs) (r : rec_op) : nat obs option =
   if starts_with "set(" t then one o (WSet (i2n (arg_of t))) r.res
   else if starts_with "update(" t then one o (WUpdate (i2n (arg_of t))) r.res
   else if starts_with "set_if_not_eq(" t then one o (WSetIfNotEq (i2n (arg_of t))) r.res
+  else if starts_with "set_if_hash_not_eq(" t then one o (WSetIfHashNotEq (i2n (arg_of t))) r.res
+  else if t = "take" then one o WTake r.res
+  else if starts_with "update_if(" t then begin
+    let inner = String.sub t 10 (String.length t - 11) in
+    match String.split_on_char ',' inner with
+    | [v; b] -> one o (WUpdateIf (i2n (int_of_string v), b = "1")) r.res
+    | _ -> failwith t
+  end
   else if t = "get" || t = "rg" then one o WGet r.res
   else if starts_with "next_now(" t then one o (SNextNow (i2n (arg_of t))) r.res
   else if starts_with "poll(" t then one o (SPoll (i2n (arg_of t))) r.res
@@ -117,12 +125,12 @@ let run_line (line : string) =
       if starts_with "set(" t then begin
         written := arg_of t :: !written;
         returned := int_of_string (after "=" r.res) :: !returned
-      end else if starts_with "update(" t || starts_with "set_if_not_eq(" t || starts_with "wg[" t then
+      end else if starts_with "update" t || starts_with "set_if_" t || t = "take" || starts_with "wg[" t then
         only_sets := false) ops;
   let setchain = (not !only_sets) || (List.sort compare !written = List.sort compare !returned) in
   (* while a read guard is alive no write completes entirely inside its hold interval; while a write
      guard is alive nothing else completes entirely inside it *)
-  let is_write r = starts_with "set" r.text || starts_with "update" r.text || starts_with "wg[" r.text in
+  let is_write r = starts_with "set" r.text || starts_with "update" r.text || r.text = "take" || starts_with "wg[" r.text in
   let rguard = ref true and wguard = ref true in
   Array.iter (fun g ->
       match g.hold with
